@@ -163,7 +163,18 @@ class PG(object):
             elif k < 0.96:
                 self.files += 1
                 fn = 'F%d.TXT' % self.files
-                if r.random() < 0.6:
+                if r.random() < 0.2:
+                    # APPEND to a file that does not exist yet (or is empty), with statements between the
+                    # OPEN and the first write: a suspension there finds the file at position 0
+                    if r.random() < 0.5:
+                        out.append(['OPEN "O",1,"%s"' % fn, 'CLOSE 1'])
+                    out.append(['OPEN "A",1,"%s"' % fn])
+                    out.extend(self.block(1))
+                    out.append(['PRINT#1,"first";A%'])
+                    out.extend(self.block(1))
+                    out.append(['WRITE#1,"second",N%', 'CLOSE 1'])
+                    out.append(['OPEN "I",1,"%s"' % fn, 'LINE INPUT#1,T$', 'PRINT T$;EOF(1);LOF(1)', 'CLOSE 1'])
+                elif r.random() < 0.6:
                     out.append(['OPEN "O",1,"%s"' % fn])
                     out.extend([['PRINT#1,A%;S$', self.simple()] for _ in range(r.randint(1, 2))])
                     out.extend(self.block(1))
